@@ -344,7 +344,15 @@ class InfixExpression(FilterExpression):
     def __str__(self) -> str:
         if self.logical:
             return f"({self.left} {self.operator} {self.right})"
-        return f"{self.left} {self.operator} {self.right}"
+        return f"{self._operand(self.left)} {self.operator} {self._operand(self.right)}"
+
+    @staticmethod
+    def _operand(expr: FilterExpression) -> str:
+        # A comparison used as an operand of another comparison was written
+        # with parentheses. Keep them, or the text groups differently.
+        if isinstance(expr, InfixExpression) and not expr.logical:
+            return f"({expr})"
+        return str(expr)
 
     def __eq__(self, other: object) -> bool:
         return (
